@@ -48,7 +48,7 @@ type recTable struct {
 func newRecTable(inner hotline.ClientManager) *recTable {
 	return &recTable{inner: inner, deletes: map[hotline.ClientID]int{}, serial: map[*hotline.ClientConn]int{}}
 }
-func (m *recTable) List() []*hotline.ClientConn               { return m.inner.List() }
+func (m *recTable) List() []*hotline.ClientConn                 { return m.inner.List() }
 func (m *recTable) Get(id hotline.ClientID) *hotline.ClientConn { return m.inner.Get(id) }
 func (m *recTable) Add(cc *hotline.ClientConn) {
 	m.mu.Lock()
@@ -157,22 +157,23 @@ func genGrace(r *RNG, idx int) graceCase {
 }
 
 type graceRun struct {
-	g       graceCase
-	ts      *TS
-	tab     *recTable
-	events  []string // the history in the model's vocabulary
-	target  *hotline.ClientConn
-	tgConn  *nopConn
-	admin   *hotline.ClientConn
-	news    []*hotline.ClientConn
-	newsC   []*nopConn
-	watcher *hotline.ClientConn
-	expectD int // Delete calls for the target's id once the timer has fired
-	err     string
-	missed  bool
-	kicked  time.Time
-	pan     any
-	res     []hotline.Transaction
+	g         graceCase
+	ts        *TS
+	tab       *recTable
+	events    []string // the history in the model's vocabulary
+	target    *hotline.ClientConn
+	tgConn    *nopConn
+	admin     *hotline.ClientConn
+	news      []*hotline.ClientConn
+	newsC     []*nopConn
+	watcher   *hotline.ClientConn
+	expectD   int // Delete calls for the target's id once the timer has fired
+	err       string
+	missed    bool
+	kicked    time.Time
+	lateUntil time.Time // one deadline for all sub-runs of a case: a timer that never fires must not cost 45 s per sub-run
+	pan       any
+	res       []hotline.Transaction
 }
 
 func startGrace(g graceCase) *graceRun {
@@ -312,7 +313,7 @@ func (run *graceRun) finish(c *Case) {
 	c.Note("timer_observed", fired)
 	if !fired && run.expectD == 1 {
 		// the target stayed and nobody removed it within 2.2 s: wait for the timer itself (slow machine)
-		fired = waitFor(45*time.Second, func() bool { return tab.deleted(run.target.ID) >= 1 })
+		fired = waitFor(time.Until(run.lateUntil), func() bool { return tab.deleted(run.target.ID) >= 1 })
 	} else {
 		fired = true
 	}
@@ -555,7 +556,9 @@ func c06WaveD(x *Ctx) {
 			}(i, g)
 		}
 		wg.Wait()
+		lateUntil := time.Now().Add(45 * time.Second)
 		for i, r := range runs {
+			r.lateUntil = lateUntil
 			resetNotes(c)
 			c.Note("sub", i)
 			r.finish(c)
